@@ -39,11 +39,20 @@ pub struct Params {
 }
 
 /// Struct wrapping the KDF functionality
-#[derive(Debug)]
 pub struct Argon2<'a> {
     password: &'a [u8],
     salt: &'a [u8],
     params: Params,
+}
+
+impl core::fmt::Debug for Argon2<'_> {
+    fn fmt(&self, f: &mut core::fmt::Formatter<'_>) -> core::fmt::Result {
+        f.debug_struct("Argon2")
+            .field("password", &"<secret>")
+            .field("salt", &self.salt)
+            .field("params", &self.params)
+            .finish()
+    }
 }
 
 impl<'a> Argon2<'a> {
